@@ -71,13 +71,21 @@ def config_strategy():
         lambda t: {'type': 'call', 'table': [list(x) for x in t[0]], 'prot': t[1], 'u2lobj': t[2]})
     builtin = st.sampled_from(['defaults', 'unicode-xml']).map(
         lambda n: {'type': 'builtin', 'name': n})
+    def place(t):
+        custom, b, where, second = t
+        out = list(custom)
+        if b:
+            out.insert(where % (len(out) + 1), b)       # a built-in set anywhere in the order
+            if second and second['name'] != b['name']:
+                out.append(second)
+        return out
     rules = st.tuples(st.lists(st.one_of(rdict, rregex, rcall), min_size=1, max_size=4),
-                      st.one_of(st.none(), builtin)).map(
-        lambda t: t[0] + ([t[1]] if t[1] else []))
+                      st.one_of(st.none(), builtin), st.integers(0, 7),
+                      st.one_of(st.none(), st.none(), builtin)).map(place)
     return st.fixed_dictionaries({
         'rules': rules,
         'protection': st.sampled_from(PROTS),
-        'policy': st.sampled_from(POLICIES),
+        'policy': st.sampled_from(POLICIES + ['callable-u2lobj']),
         'non_ascii_only': st.booleans(),
     })
 
@@ -152,10 +160,23 @@ def make_encoder(cfg, cls=None, string_class=None):
     p = cfg.get('protection', 'braces')
     kw['replacement_latex_protection'] = (lambda r: '<' + r + '>') if p == 'callable' else p
     pol = cfg.get('policy', 'keep')
-    kw['unknown_char_policy'] = (lambda ch: '(U%d)' % ord(ch)) if pol == 'callable' else pol
+    if pol == 'callable-u2lobj':
+        # a policy callable that asks for the encoder object
+        seen = []
+
+        def policy(ch, u2lobj):
+            seen.append(u2lobj)
+            return '(U%d)' % ord(ch)
+        kw['unknown_char_policy'] = policy
+        kw['_seen'] = seen
+    else:
+        kw['unknown_char_policy'] = (lambda ch: '(U%d)' % ord(ch)) if pol == 'callable' else pol
+    seen = kw.pop('_seen', None)
     if string_class is not None:
         kw['latex_string_class'] = string_class
-    return (cls or UnicodeToLatexEncoder)(**kw)
+    enc = (cls or UnicodeToLatexEncoder)(**kw)
+    enc._pv_policy_saw = seen
+    return enc
 
 
 def sanitize(s, cfg):
@@ -207,8 +228,17 @@ def check_pair(s, cfg, res, case):
     for label, sc in (('chunks', Chunks), ('str', None)):
         try:
             enc = make_encoder(cfg, string_class=sc)
+            if sc is not None:
+                try:
+                    enc.unicode_to_latex('a' + s[:3])     # an earlier call on the same object
+                except ValueError:
+                    pass
             r = enc.unicode_to_latex(s)
             results[label] = ('ok', r.chunks if sc else r)
+            if enc._pv_policy_saw and any(o is not enc for o in enc._pv_policy_saw):
+                res.fail('c04:policy-callable-got-wrong-u2lobj', 'the unknown_char_policy callable '
+                         'was given %r as u2lobj' % (enc._pv_policy_saw[:1],), case)
+                return
         except ValueError as e:
             results[label] = ('ValueError', e)
         except Exception as e:
